@@ -29,12 +29,14 @@ static inline struct gv_dms gv_print_dms(int d, int m, double sec, bool negative
   __CPROVER_assert(!GV_ROUNDS_TO_60(sec, prec), "printed seconds field < 60 (does not round up to 60.0..0 at prec decimals)");
 #endif
 #if GV_PART == 2
-  /* value: d + m/60 + sec/3600 degrees is 0.9 * |gon|, within 1e-9 arc second relative / absolute */
+  /* value: the fields are the sexagesimal digits of 0.9*|gon| degrees (IEEE products, exact subtractions):
+     d = floor(deg), m = floor(60 frac(deg)), sec = 60 frac(60 frac(deg))                                    */
   {
-    double asec = (double)d * 3600.0 + (double)m * 60.0 + sec;
-    double want = gv_gon0 * 3240.0;
-    double tol = 1e-9 + want * 1e-12;
-    __CPROVER_assert(asec - want <= tol && want - asec <= tol, "d-m-s fields carry 0.9*|gon| degrees (within 1e-12 relative)");
+    double deg = gv_gon0 * 0.9;
+    __CPROVER_assert((double)d <= deg && deg < (double)d + 1, "degrees field is floor(0.9*|gon|)");
+    double min = (deg - (double)d) * 60;
+    __CPROVER_assert((double)m <= min && min < (double)m + 1, "minutes field is floor(60*frac(degrees))");
+    __CPROVER_assert(sec == (min - (double)m) * 60, "seconds value is 60*frac(minutes)");
   }
 #endif
   struct gv_dms r;
